@@ -246,12 +246,10 @@ func focus(level string) func(string, any) bool {
 func serial(b batch) []response {
 	out := make([]response, len(b.Reqs))
 
+	// always on fresh, cold state: a stateless service must answer a request
+	// the same way whatever was served (and cached) before it
 	for i, rq := range b.Reqs {
 		reset()
-
-		if b.Warm {
-			serve(servicesSrc[b.Svc], reqSpec{User: "warmup", Param: "w", Item: "w", Body: "w"})
-		}
 
 		out[i] = serve(servicesSrc[b.Svc], rq)
 	}
